@@ -10,10 +10,40 @@ import itertools, random
 from gens_deque import pick_value, upper_pow_two, Sim
 
 
+
+def sparsify(rng, hist):
+    """CONVENTIONS addendum 2: a sparse-observation session — `obs=sparse` on the constructor line, the obs
+    section of every op then carries only status / out-values / callback log, and the content is swept only
+    by `observe` (every 5-15 operations and once before the final destroy)."""
+    if not hist or not hist[0].startswith("new"):
+        return hist
+    out = [hist[0] + " obs=sparse"]
+    gap = rng.randint(5, 15)
+    body = hist[1:-1] if hist[-1].startswith("destroy") else hist[1:]
+    for op in body:
+        out.append(op)
+        gap -= 1
+        if gap <= 0:
+            out.append("observe")
+            gap = rng.randint(5, 15)
+    if hist[-1].startswith("destroy"):
+        out += ["observe", hist[-1]]
+    return out
+
+
+def sparse_third(hists, seed):
+    """every third history (deterministically for small-scope lists) runs in sparse mode"""
+    r = random.Random(seed)
+    return [sparsify(r, h) if i % 3 == 1 else h for i, h in enumerate(hists)]
+
+
 class QueueGen:
     name = "queue"
 
     def small_scope(self, tier, focus=None):
+        return sparse_third(self._small_scope(tier, focus), 12345)
+
+    def _small_scope(self, tier, focus=None):
         out = []
         maxlen = 8 if tier == "quick" else 11
         for cap in (1, 2, 3):
@@ -79,6 +109,9 @@ class QueueGen:
         return out
 
     def fault_seeds(self, tier):
+        return sparse_third(self._fault_seeds(tier), 777)
+
+    def _fault_seeds(self, tier):
         out = []
         for cap in (1, 2, 4):
             for f in range(cap):
@@ -89,6 +122,10 @@ class QueueGen:
         return out
 
     def random(self, rng, n, tier, focus=None):
+        hs = self._random(rng, n, tier, focus)
+        return [sparsify(rng, h) if rng.random() < 0.34 else h for h in hs]
+
+    def _random(self, rng, n, tier, focus=None):
         out = []
         for _ in range(n):
             cc = rng.choice([0, 1, 2, 3, 4, 5, 7, 8, 9, 16, 17])
